@@ -268,8 +268,7 @@ func (u *Unit) nameShort(t *Term, prefix string) *Term {
 // mkArr builds a derived array; the index of every read is named first so
 // that expansions through long write histories stay linear in size.
 func (u *Unit) mkArr(fn func(idx *Term) *Term) *Term {
-	narr++
-	id := fmt.Sprintf("<arr#%d>", narr)
+	id := fmt.Sprintf("<arr#%d>", nextArr())
 	return &Term{S: id, Sort: SArr, Fn: func(idx *Term) *Term {
 		if u.binder > 0 {
 			// under a quantifier nothing can be named by a constant: the array
